@@ -41,18 +41,18 @@ CLAIMED["C03"] = dict(
         "exactly (classes and contents) inside the fragment; no listed finding applies there. Partial: see text.",
    technique="Coq proofs over lax validators regenerated from source + Coq proof by induction on the parse calculus for re-parsing (stable fragment) + re-parse oracle and correspondence on the implementation", design="§8 C03")
 CLAIMED["C18"] = dict(
-   text="Machine-checked proof (Coq), partial: theorems C18_list_exact, C18_dict_exact, C18_optional_exact, C18_union_exact — for `class Node: v: int; "
-        "link: List[Node]`, `link: Dict[str, Node]`, `link: Optional[Node] = None` and `link: Union[Node, int, None] = None` with max_depth=d, EVERY input (trees of any size and "
+   text="Machine-checked proof (Coq), partial: theorems C18_list_exact, C18_dict_exact, C18_optional_exact, C18_union_exact, C18_tuple_exact — for `class Node: v: int; "
+        "link: List[Node]`, `link: Dict[str, Node]`, `link: Optional[Node] = None`, `link: Union[Node, int, None] = None` and `link: Tuple[Node, ...] = ()` with max_depth=d, EVERY input (trees of any size and "
         "branching with the deep branch at any index / under any key; chains of any length through the three-stage union) is accepted, "
         "and converted to the expected instances, exactly when its data-class nesting depth is <= d (induction over rose trees / chains "
         "on the executable model of RuntimeContext/Rule.parse/logical_parse/init_dataclass); C18_levels_add_up for any enclosing level. "
-        "The four declarations are compared on every run with what the real classes reflect to (theorem-subjects suite). Other link "
-        "kinds (Dict with float/Decimal/bool/Optional[str] keys, Tuple, List[Optional]) and option sets are "
+        "The five declarations are compared on every run with what the real classes reflect to (theorem-subjects suite). Other link "
+        "kinds (Dict with float/Decimal/bool/Optional[str] keys, List[Optional]) and option sets are "
         "decided by the depth correspondence suite and the nesting oracle. The cost half is refuted on the implementation "
         "(exponential, known finding) and not proved; a linear-cost check runs for fully strict classes.",
    note="Trusted: Coq kernel; hand model Model/Parse.v + Ctx.v tied by the depth correspondence suite (0 mismatches required) and the "
         "theorem-subjects suite (reflected declaration = theorem's declaration, by conversion); harness generators. Partial: theorems "
-        "cover the List / Dict[str] / Optional / Union-with-scalar-arms families; cost bound is a known finding, measured with a counting leaf type.",
+        "cover the List / Dict[str] / Optional / Union-with-scalar-arms / variable-length Tuple families; cost bound is a known finding, measured with a counting leaf type.",
    technique="Coq proof by induction over input trees on the executable parse model + model/implementation correspondence", design="§8 C18")
 CLAIMED["C01"] = dict(
    text="Machine-checked proof (Coq): theorem C01_conform — for the whole parse calculus (builtin converters, Rule.parse with the "
